@@ -108,6 +108,27 @@ pub fn execute(scn: &HwScn, ctx: &mut Ctx) {
             } else {
                 ctx.stats.reach("finalize-idle");
             }
+            // "leaves both destinations flushed": inside a finalize that had something to commit, each
+            // destination sees an Ok flush after its last write of the call
+            if !clean_since_fin {
+                let wb = world.borrow();
+                for dev in [SHP, SHX] {
+                    if dev == SHX && !p.with_shx {
+                        continue;
+                    }
+                    let evs: Vec<&crate::world::Event> = wb.log[m.first_ev..m.end_ev].iter().filter(|e| e.dev as usize == dev).collect();
+                    let last_write = evs.iter().rposition(|e| e.kind == OpKind::Write);
+                    let last_flush = evs.iter().rposition(|e| e.kind == OpKind::Flush && e.err.is_none());
+                    let ok = match (last_write, last_flush) {
+                        (Some(w), Some(f)) => f > w,
+                        (None, _) => true,
+                        (Some(_), None) => false,
+                    };
+                    if !ok {
+                        ctx.fail("C09", "flushed-after-finalize", format!("{}:{}", hsite, DEV_NAMES[dev]), format!("history {}: finalize returned Ok but the {} destination was not flushed after its last write of the call", pat, DEV_NAMES[dev]));
+                    }
+                }
+            }
             // the device (below any buffer) holds a complete shapefile with the shapes written so far
             if let Some((shp, shx)) = &m.snap {
                 let geoms: Vec<&Geom> = written_so_far.iter().map(|i| &run.geoms[*i]).collect();
